@@ -22,6 +22,12 @@ C08.ctor    NODATA and NXDOMAIN answers ask for the SOA, data / CNAME /
             referral answers do not; NXDOMAIN carries RCODE NXDOMAIN, the
             others NOERROR; a referral is not authoritative; into_answer adds
             the apex SOA exactly when asked.
+C08.any     for QTYPE ANY the RRset is chosen among those *present at the
+            reader's version*: the version lookup is applied while iterating
+            over the node's types (loop, find_map, filter_map ...), not to the
+            first map entry only -- an entry that belongs to another version
+            (an uncommitted writer's, a removed one) must not turn the answer
+            into NODATA.
 C08.auth    Answer::to_message writes every part of the authority section
             (SOA, NS, DS) that is present, independently of the others, and
             both parts of the additional section: a referral for a signed
@@ -59,6 +65,7 @@ def run(ctx):
     rule_ctor(ctx, F)
     rule_auth(ctx, F)
     rule_nx(ctx, F)
+    rule_any(ctx, F)
     # the answer depends on the current records only if the versioned containers mask, restore and roll back correctly
     import c09
     c09.rule_ver(ctx, F)
@@ -458,3 +465,60 @@ def _combinator_verdict(b, F, term):
     else:
         ok = (pol < 0 and not neg)        # all(absent)
     return True if ok else "`%s%s(|v| %s)`" % ("!" if neg else "", comb, "v is present" if pol > 0 else "v is absent")
+
+
+# ---------------------------------------------------------------------------
+# QTYPE ANY picks among the RRsets present at the version
+# ---------------------------------------------------------------------------
+
+def rule_any(ctx, F):
+    R = "C08.any"
+    ctx.floor(R, 1)
+    b = _one(F, RZ + r"query_rrsets$")
+    if not ctx.anchor(R, "ReadZone::query_rrsets", b):
+        return
+    bf = BranchFacts(b, F)
+    arm = None
+    for sw in sorted(b.reachable_blocks()):
+        if b.blocks[sw]["t"]["k"] != "switch":
+            continue
+        for lab, (tt, v) in bf.edge_facts(sw).items():
+            s = deep_strip(tt)
+            if v is True and s[0] == "call" and re.search(r"::eq$", s[1] or "") and any(const_value(deep_strip(a)) == 255 for a in s[3]):
+                arm = b.edge_target(sw, lab)
+            if v is True and s[0] == "bin" and s[1] == "Eq" and 255 in (const_value(deep_strip(s[2])), const_value(deep_strip(s[3]))):
+                arm = b.edge_target(sw, lab)
+    if not ctx.anchor(R, "the QTYPE ANY arm of query_rrsets", arm is not None, b.where()):
+        return
+    from rulelib import cyclic_blocks
+    blocks = b.reach_from(arm)
+    cyc = cyclic_blocks(b)
+    sites = []
+    for bb, t in b.calls():
+        if bb in blocks and re.search(r"NodeRrset::get$", t["fn"] or ""):
+            el = deep_strip(b.term_of_operand(t["args"][0]))
+            nxt = [s for s in walk(el) if s[0] == "call" and re.search(r"Iterator>?::next$", s[1] or "")]
+            sites.append(("loop" if nxt and nxt[0][5] in cyc else "first entry only", b.where(bb)))
+    for bi, cb, ops in closures_created_in(F, b):
+        if bi not in blocks:
+            continue
+        if not any(re.search(r"NodeRrset::get$", t["fn"] or "") for _, t in cb.calls()):
+            continue
+        # which combinator takes this closure?
+        comb = None
+        for bb, t in b.calls():
+            for a in t["args"]:
+                s = deep_strip(b.term_of_operand(a))
+                if s[0] == "agg" and s[1][0] == "closure" and s[1][1] == cb.path:
+                    comb = t["fn"] or ""
+        it = comb is not None and re.search(r"(^|[<:])core::iter::|Iterator>?::", comb) is not None
+        sites.append(("iterator combinator " + comb.split("::")[-1] if it else "applied to one element (%s)" % (comb or "?").split("::")[-1],
+                      b.where(bi)))
+    if not ctx.anchor(R, "version lookup in the ANY arm", bool(sites), b.where(arm)):
+        return
+    for n, (how, where) in enumerate(sites):
+        ok = how == "loop" or how.startswith("iterator combinator")
+        ctx.ob(R, b, "ANY: version lookup #%d ranges over the node's types" % (n + 1), ok,
+               "for QTYPE ANY query_rrsets looks at the first entry of the node's type map only (%s) and answers NODATA when "
+               "that entry has no RRset at the reader's version: an RRset type added by an uncommitted writer (or removed "
+               "in a later version) changes a held reader's answer, depending on hash order" % how, where)
